@@ -75,9 +75,12 @@ class Repo:
                     f.write("")
             self.caches.append({"lay": lay, "ro": ro, "wfail": wfail, "loc": loc})
         have = rng.sample(ECL, rng.randint(2, 4))
-        for n in have:
-            self.write_eclass(rng.randrange(self.nstack), n)
         base = rng.sample(have, rng.randint(1, min(3, len(have))))
+        for n in have:
+            # dirs[0] is the overlay (searched first), dirs[1] its master; with masters, at least one
+            # inherited eclass lives in the master only, so the overlay can start shadowing it later
+            r = 1 if (self.nstack == 2 and n == base[0]) else rng.randrange(self.nstack)
+            self.write_eclass(r, n)
         for j, p in enumerate(self.pkgs):
             if j == 0 or rng.random() < 0.6:
                 inh = list(base)                                     # the same inherit list
@@ -329,7 +332,8 @@ def raw_valid(repo, i, p):
 MID_KINDS = ["ebuild_content", "ebuild_touch", "ebuild_older", "ebuild_same_mtime", "ebuild_inherits",
              "drop_inherit_key", "corrupt", "delete", "copy", "empty_eclasses", "stale_eclass_value"]
 ECLASS_KINDS = ["eclass_edit", "eclass_edit", "eclass_touch", "eclass_older", "eclass_same_mtime", "eclass_remove",
-                "eclass_move", "eclass_shadow", "eclass_add"]
+                "eclass_move", "eclass_shadow", "eclass_add", "overlay_shadows_master", "overlay_shadows_master",
+                "overlay_copy_removed"]
 ALL_KINDS = MID_KINDS + ECLASS_KINDS + ECLASS_KINDS + ["toggle_ro", "none"]
 
 
@@ -381,6 +385,23 @@ def edit(repo, rng, mid_session):
                 t = os.stat(q).st_mtime
                 shutil.move(q, q2)
                 os.utime(q2, (t, t))
+    elif k == "overlay_shadows_master" and repo.nstack == 2:
+        # an inherited eclass that only the master has gets a DIFFERENT copy in the overlay; the
+        # master's file (what existing entries recorded) stays byte-identical
+        used = {n for q in repo.pkgs for n in repo.ebuild_inherits(q)}
+        cand = [n for r, n in files if r == 1 and n in used
+                and not os.path.exists(os.path.join(repo.dirs[0], n + ".eclass"))]
+        if cand:
+            n = rng.choice(cand)
+            label = f"{k}({n})"
+            repo.write_eclass(0, n)
+    elif k == "overlay_copy_removed" and repo.nstack == 2:
+        # the overlay's shadowing copy disappears: the master's (different) copy becomes visible
+        cand = [n for r, n in files if r == 0 and os.path.exists(os.path.join(repo.dirs[1], n + ".eclass"))]
+        if cand:
+            n = rng.choice(cand)
+            label = f"{k}({n})"
+            os.unlink(os.path.join(repo.dirs[0], n + ".eclass"))
     elif k == "eclass_shadow" and repo.nstack == 2:      # the same name appears in the other repository
         n = rng.choice(ECL)
         r = rng.randrange(2)
@@ -456,7 +477,7 @@ def main(chk: Check):
     chk.rule("histories over random on-disk repositories (2-3 packages with equal/overlapping inherit lists, 1-2 "
              "stacked eclass dirs, 1-3 caches of either layout, read-only / unwritable ones included): 2-4 sessions, "
              "each one long-lived repository object reading every package in random order (sometimes one twice); "
-             "22 kinds of edit (ebuild content/touch/older mtime/content-with-same-mtime/inherit list, eclass edit/"
+             "24 kinds of edit (overlay starts / stops shadowing a master's eclass, ebuild content/touch/older mtime/content-with-same-mtime/inherit list, eclass edit/"
              "touch/older/same-mtime/removal/move between stacked repos/shadowing/addition, entry without INHERIT, "
              "corrupt/deleted/copied entry, empty or stale _eclasses_, read-only toggle) before every session and "
              "(ebuild / entry kinds) between the reads of a session; non-trivial = distinct (world, cache states) "
@@ -485,6 +506,8 @@ def main(chk: Check):
                         k, label = edit(repo, rng, False)
                         hist.append(label)
                         kinds_seen[k] = kinds_seen.get(k, 0) + 1
+                        if label.startswith("overlay_shadows_master("):
+                            kinds_seen["overlay_shadows_master:effective"] = kinds_seen.get("overlay_shadows_master:effective", 0) + 1
                 sess = Session(repo)
                 hist.append("-- new repository object")
                 order = list(repo.pkgs)
